@@ -24,7 +24,29 @@ func ToYaeVal(v *model.Val, funs FunLookup) *val.Val {
 	return toYaeVal(c, v, funs)
 }
 
+// ToYaeValShared is ToYaeVal with hash-consing: sub-values of one type that read alike become
+// one *val.Val, reachable several times (what a variable mentioned twice, or a host that
+// reuses a value, produces).
+func ToYaeValShared(v *model.Val, funs FunLookup) *val.Val {
+	c := NewTyCtx()
+	c.share = map[string]*val.Val{}
+	return toYaeVal(c, v, funs)
+}
+
 func toYaeVal(c *TyCtx, v *model.Val, funs FunLookup) *val.Val {
+	if c.share != nil && v.T.K != model.TFun {
+		k := v.T.OrderString() + "|" + v.Render()
+		if y, ok := c.share[k]; ok {
+			return y
+		}
+		y := toYaeVal1(c, v, funs)
+		c.share[k] = y
+		return y
+	}
+	return toYaeVal1(c, v, funs)
+}
+
+func toYaeVal1(c *TyCtx, v *model.Val, funs FunLookup) *val.Val {
 	switch v.T.K {
 	case model.TNum:
 		return val.Num(float64(v.N))
